@@ -64,6 +64,17 @@ func (x *Exec) callAssertions(st *State, in ssa.Instruction, c *ssa.CallCommon, 
 		name = ifaceShort(c.Method, c.Value.Type())
 	} else if f := c.StaticCallee(); f != nil {
 		name = shortName(f)
+	} else if u, ok := c.Value.(*ssa.UnOp); ok {
+		// call through a function-typed struct field: named Struct.field
+		if fa, ok := u.X.(*ssa.FieldAddr); ok {
+			if pt, ok := fa.X.Type().Underlying().(*types.Pointer); ok {
+				if n, ok := pt.Elem().(*types.Named); ok {
+					if stt, ok := n.Underlying().(*types.Struct); ok {
+						name = n.Obj().Name() + "." + stt.Field(fa.Field).Name()
+					}
+				}
+			}
+		}
 	}
 	cls := x.fc.AtCall[name]
 	if len(cls) == 0 {
@@ -79,6 +90,14 @@ func (x *Exec) callAssertions(st *State, in ssa.Instruction, c *ssa.CallCommon, 
 	pkg := x.fn.Pkg.Pkg
 	env := &Env{x: x, st: st, old: x.entry, names: names, pkg: pkg, pkgPath: pkg.Path(), fn: x.fn, atBlock: st.curBlock, proving: true}
 	ord := x.callSiteOrdinal(in, name)
+	// reachability probe: an `atcall` obligation on a call site that no feasible path reaches is vacuous
+	probe := fmt.Sprintf("cover:atcall:%s@%d", name, ord)
+	if x.atcallProbes[probe] < 10 {
+		x.atcallProbes[probe]++
+		cov := &Obligation{Name: x.fnKey + "#" + probe, Func: x.fnKey, Kind: "cover", Src: "the call site is reachable", Goal: "false", Trace: strings.Join(st.trace, " ")}
+		cov.Script = x.script(st, "false")
+		x.obls = append(x.obls, cov)
+	}
 	for _, cl := range cls {
 		g := x.evalBool(env, cl)
 		x.emit(st, fmt.Sprintf("atcall:%s.%s@%d", name, cl.Label, ord), "atcall", cl.Src, g)
